@@ -85,7 +85,20 @@ pub fn scenario(seed: u64, idx: u64) -> Scenario {
     sc.tree = TreeSpec { root, entries, mtime_mode: 0 };
 
     let n = rng.range(2, 8);
+    // a third of the runs serve their connections four at a time, with every stage hook on: a climbing
+    // request next to ordinary ones
+    let overlapped = rng.chance(1, 3);
+    if overlapped {
+        sc.yields = all_yields();
+        sc.workers = rng.range(2, 4);
+    }
     for i in 0..n {
+        // an ordinary request for a file of the tree now and then (its answer must be its own file)
+        if overlapped && rng.chance(1, 3) {
+            let p = *rng.pick(&["/a.txt", "/page.html", "/page", "/d/", "/d/e/deep.txt", "/index.html"]);
+            sc.conns.push(Conn::simple(i, (i / 4) as u32, get(p), "ordinary"));
+            continue;
+        }
         // target = prefix form + segments
         let nseg = rng.range(1, 12);
         let mut segs: Vec<String> = vec![];
@@ -156,11 +169,16 @@ pub fn scenario(seed: u64, idx: u64) -> Scenario {
             hs.push(("Range", rng.pick(&["bytes=0-3", "bytes=0-", "bytes=-5", "bytes=0-3,5-9", "bytes=0-99999"]).to_string()));
         }
         let hs2: Vec<(&str, &str)> = hs.iter().map(|(a, b)| (*a, b.as_str())).collect();
-        let mut c = Conn::simple(i, i as u32, req(method, &target, &hs2, b""), "traversal");
+        let mut c = Conn::simple(i, if overlapped { (i / 4) as u32 } else { i as u32 }, req(method, &target, &hs2, b""), "traversal");
         if rng.chance(1, 10) {
             transport_fault(&mut rng, &mut c, &["short_write", "seg"]);
         }
         sc.conns.push(c);
+    }
+    // now and then the owner removes the served directory while the server runs: whatever the server
+    // makes of a working directory that is gone, it is no licence to serve the rest of the disk
+    if !overlapped && n >= 3 && rng.chance(1, 12) {
+        sc.owner_ops.push(OwnerOp { before_phase: rng.range(1, n - 1) as u32, kind: if rng.chance(1, 2) { "remove_tree".into() } else { "replace_with_empty_dir".into() }, path: sc.tree.root.clone() });
     }
     sc
 }
